@@ -560,6 +560,18 @@ func (state *BuildState) LogBuildResult(target *BuildTarget, status BuildResultS
 	}
 }
 
+// TargetFailed signals anything waiting for the given target to be built (e.g. the parse of a package
+// that subincludes it) that it never will be; the waiters find it in a failed state.
+func (state *BuildState) TargetFailed(target *BuildTarget) {
+	if ch := state.progress.pendingTargets.Get(target.Label); ch != nil {
+		select {
+		case <-ch: // Already signalled: it was reported as built before it failed (e.g. its download did).
+		default:
+			close(ch)
+		}
+	}
+}
+
 // ArchSubrepoInitialised closes the pending target channel for the non-existent arch subrepo psudo-target
 func (state *BuildState) ArchSubrepoInitialised(subrepoLabel BuildLabel) {
 	// We may have parse tasks waiting for this guy to build, check for them.
